@@ -9,6 +9,7 @@
   target kinds, both mismatched-types policies, all request histories (unbounded length).
 -/
 import BSVerif.Scope.Cursor
+import BSVerif.Scope.VarKey
 import BSVerif.Scope.Spec
 
 namespace BSVerif.Props.C03
@@ -138,5 +139,21 @@ example : exampleLayout.WF := by
 example : (runGets [(.int 5, .str), (.str [97], .int), (.str [122], .int), (.int 5, .str)] ⟨1, 2, 0, none⟩
     ⟨exampleLayout.doc, 1, .skip⟩).toOption.map (·.1) = some [some (.str [120]), none, none, some (.str [120])] := by
   decide
+
+end BSVerif.Props.C03
+
+namespace BSVerif.Props.C03
+
+/-- key comparison of the object scope (`CVariableKey::operator==`) is equality of the integers, whichever C++ integer type the
+    caller passes the key as: an absent key never "matches" a stored key through a two's-complement coincidence -/
+theorem key_compare_is_integer_equality (st : Scope.VarKey.Stored) (t : Scope.VarKey.ITy) (v : Int)
+    (hb : t.bits = 8 ∨ t.bits = 16 ∨ t.bits = 32 ∨ t.bits = 64) (hv : t.holds v) (hs : st.holds) :
+    Scope.VarKey.eqKey st t v = true ↔ st.val = v :=
+  Scope.VarKey.eqKey_iff st t v hb hv hs
+
+-- premises satisfiable on a non-trivial instance: −1 as int32 against the stored uint64 key 4294967295
+example : (⟨32, true⟩ : Scope.VarKey.ITy).holds (-1) ∧ (Scope.VarKey.Stored.u 4294967295).holds ∧
+    Scope.VarKey.eqKey (.u 4294967295) ⟨32, true⟩ (-1) = false := by
+  refine ⟨by simp [Scope.VarKey.ITy.holds], by simp [Scope.VarKey.Stored.holds], by decide⟩
 
 end BSVerif.Props.C03
